@@ -259,7 +259,8 @@ def structure_facts(ir):
                       'facts': {'kind': 'empty_future'}})
         elif ir['error'] == 'index' and any(len(c) != len(op.c) for c in ir['c_samples']):
             v.append({'oracle': 'cost_samples', 'detail': 'make_slp raises %s: costs_only cost vectors have lengths %s but the problem has %d variables' % (
-                ir['error_text'], [len(c) for c in ir['c_samples']], len(op.c)), 'facts': {'kind': 'cost_vector_length', 'mip': bool(pf.is_mip(op))}})
+                ir['error_text'], [len(c) for c in ir['c_samples']], len(op.c)), 'facts': {'kind': 'cost_vector_length', 'mip': bool(pf.is_mip(op)),
+                                'periodic': any('periodicity' in a.get('args', {}) or 'periodicity' in a.get('base', {}).get('args', {}) for a in ir['rec']['scn']['assets'])}})
         elif ir['error'] == 'assert' and ir['sf'] >= ir['end']:
             pass   # documented rejection
         else:
